@@ -31,7 +31,17 @@ where
             1u32.into(),
         );
 
-        let lvl_1_ks: usize = self.glwe_keyswitch_tmp_bytes_default(glwe_infos, glwe_infos, key_infos);
+        // the key switch reads the rank-1 temporary holding the LWE sample (key radix, precision of the LWE)
+        let lvl_1_ks: usize = self.glwe_keyswitch_tmp_bytes_default(
+            glwe_infos,
+            &GLWELayout {
+                n: key_infos.n(),
+                base2k: key_infos.base2k(),
+                k: lwe_infos.max_k(),
+                rank: 1u32.into(),
+            },
+            key_infos,
+        );
         let lvl_1_a_conv: usize = if lwe_infos.base2k() == key_infos.base2k() {
             0
         } else {
